@@ -189,17 +189,36 @@ var rR8 = RuleRef{Name: "R8", Doc: "exactly one reply write per command: on ever
 			if in == ssa.Instruction(sel) {
 				return Set{"c0w0": true}, false
 			}
-			if call, ok := in.(*ssa.Call); ok && toCmd != nil {
-				if cf := callee(call); cf == toCmd || (cf != nil && firstParty(cf) && pkgRel(cf) == "server" && callsTransitively(cf, toCmd, 0)) {
-					n := Set{}
-					for st := range s {
-						n["c1"+st[2:]] = true
-					}
-					s = n
-					if cf == toCmd {
-						return s, false
+			// a command is being executed once the path passes a dispatch point: the dispatcher call, the proposal
+			// send, or a helper of this package that contains one
+			isDispatchHere := false
+			switch x := in.(type) {
+			case *ssa.Call:
+				if cf := callee(x); cf != nil {
+					if isDispatcherParent(c, cf) {
+						isDispatchHere = true
+					} else if firstParty(cf) && pkgRel(cf) == "server" && cf != fn {
+						for _, d := range c.Facts.Dispatchers {
+							if callsTransitively(cf, d.Parent(), 0) {
+								isDispatchHere = true
+							}
+						}
+						if sendsProposal(cf) {
+							isDispatchHere = true
+						}
 					}
 				}
+			case *ssa.Send:
+				if strings.Contains(x.Chan.Type().String(), "RaftProposal") {
+					isDispatchHere = true
+				}
+			}
+			if isDispatchHere {
+				n := Set{}
+				for st := range s {
+					n["c1"+st[2:]] = true
+				}
+				s = n
 			}
 			// a helper that writes to this connection: composed through its write-count summary
 			if call, ok := in.(*ssa.Call); ok {
@@ -247,19 +266,16 @@ var rR8 = RuleRef{Name: "R8", Doc: "exactly one reply write per command: on ever
 		var bad []string
 		if live {
 			for st := range s {
-				if st != "c0w0" && st != "c1w1" {
-					switch st {
-					case "c1w0":
-						bad = append(bad, "a path executes a command and starts the next iteration without writing a reply")
-					case "c1w2":
-						bad = append(bad, "a path writes more than one reply for one command")
-					default:
-						bad = append(bad, "a path writes to the connection without having extracted a command ("+st+")")
-					}
+				switch st {
+				case "c0w0", "c1w1", "c0w1": // c0w1: an error reply for a command that was rejected before dispatch
+				case "c1w0":
+					bad = append(bad, "a path executes a command and starts the next iteration without writing a reply")
+				default:
+					bad = append(bad, "a path writes more than one reply for one command ("+st+")")
 				}
 			}
 		}
-		c.Add("R8", fnName(fn), "exactly one conn.Write per extracted command on every path of the loop body", fn.Pos(), len(bad) == 0, strings.Join(bad, "; "))
+		c.Add("R8", fnName(fn), "exactly one conn.Write per dispatched command, at most one otherwise, on every path of the loop body", fn.Pos(), len(bad) == 0, strings.Join(bad, "; "))
 		// no write on this connection from closures (spawned goroutines)
 		var stray []string
 		for _, a := range fn.AnonFuncs {
